@@ -1,5 +1,5 @@
 CONSTANTS Items <- ItemsSmall
- MaxLen = 4
+ MaxLen = 3
  Writer = "doubles_comment"
 INIT Init
 NEXT Next
